@@ -9,7 +9,7 @@ VARIABLES wasShut,  \* shutdown() has been called explicitly in this run
 svars == <<bvars, wasShut, rej>>
 
 Upd == LET e == E IN
-       /\ wasShut' = IF e.ev \in {"Begin", "Start"} THEN FALSE ELSE (wasShut \/ (e.ev = "Shutdown" /\ Ok(e)))
+       /\ wasShut' = IF e.ev \in {"Begin", "Start"} THEN FALSE ELSE (wasShut \/ (e.ev \in {"Shutdown", "ShutdownRace"} /\ Ok(e)))
        /\ rej' = IF e.ev = "Begin" THEN {}
                  ELSE IF e.ev = "Log" /\ wasShut /\ \E j \in 1..Len(e.errs) : e.errs[j] = "Write" THEN rej \cup {e.id}
                  ELSE rej
@@ -23,12 +23,19 @@ Check ==
             S == Stream(F)
         IN
         \* (observations that race with the async writer thread or the cleanup thread are not judged)
-        /\ LET quiet == (cc.mode # "async" /\ ~(cc.clean /\ cc.bg)) \/ (e.ev \in {"Shutdown", "Stop"} /\ Ok(e)) IN
+        /\ LET quiet == (cc.mode # "async" /\ ~(cc.clean /\ cc.bg)) \/ (e.ev \in {"Shutdown", "ShutdownRace", "Stop"} /\ Ok(e)) IN
            /\ Chk(e, "AllClean", ~quiet \/ AllClean(F))
            /\ Chk(e, "NothingForeign", ~quiet \/ IsPrefix(S, a) \/ cc.clean)
         \* once shutdown() has returned or the last clone of the handle has been dropped ...
-        /\ IF e.ev \in {"Shutdown", "Stop"} /\ Ok(e)
-           THEN Chk(e, IF e.ev = "Shutdown" THEN "AfterShutdownAllPresent" ELSE "AfterLastDropAllPresent",
+        \* several callers at the same time (FlwShut.tla): a call that returned while the writer thread was still held
+        \* with its backlog must already find every accepted record on disk
+        /\ IF e.ev = "ShutdownRace" /\ Ok(e)
+           THEN /\ Chk(e, "NoCallerReturnsBeforeWritten",
+                       e.early = 0 \/ {a[j][1] : j \in 1..Len(a)} \subseteq {e.heldids[j] : j \in 1..Len(e.heldids)})
+                /\ Cnt(6, e.held) /\ Cnt(7, e.held /\ cc.mode = "async" /\ Len(e.heldids) < Len(a))
+           ELSE TRUE
+        /\ IF e.ev \in {"Shutdown", "ShutdownRace", "Stop"} /\ Ok(e)
+           THEN Chk(e, IF e.ev # "Stop" THEN "AfterShutdownAllPresent" ELSE "AfterLastDropAllPresent",
                     IF cc.clean THEN IsSuffix(S, a) /\ (Len(a) = 0 \/ Len(S) > 0) ELSE S = a)
                 /\ Cnt(1, TRUE) /\ Cnt(2, cc.mode = "async") /\ Cnt(3, Len(ReadOrder(F)) > 1)
            ELSE TRUE
